@@ -45,7 +45,8 @@ Definition int_float_cmp (x b : Z) : option comparison :=
   if f_nan b then None else Some (ifcmp_exact (round53 x) b).
 
 (* Value::compare restricted to Null / Int / Float / Text (the variants a BIGINT / DOUBLE /
-   TEXT table produces); Bool does not occur in sort keys of this fragment *)
+   TEXT table produces).  The executor's Value has no Bool variant (booleans travel as Int 0 / 1):
+   VBool never reaches a sort key of this fragment and is compared like its integer *)
 Definition value_compare (a b : value) : option comparison :=
   match a, b with
   | VNull, _ | _, VNull => None
@@ -56,6 +57,7 @@ Definition value_compare (a b : value) : option comparison :=
   | VText x, VText y => Some (bytes_cmp x y)
   | (VInt _ | VFloat _), VText _ => Some Lt
   | VText _, (VInt _ | VFloat _) => Some Gt
+  | VBool x, VBool y => Some (Z.compare (Z.b2z x) (Z.b2z y))
   | _, _ => None
   end.
 (* Value::compare_for_sort (as of commit 26fae1f) *)
@@ -339,3 +341,14 @@ Definition known_class_q (ncols : nat) (q : query) : Z :=
       else first_nonzero (map (fun ks => key_class ncols (q_sel q) (fst (fst ks)) (snd ks))
                               (combine (q_keys q) (impl_srcs ncols q)))
   end.
+
+(* 7  DISTINCT compares rows by their Debug rendering: -0.0 and 0.0 (equal in SQL) both survive.
+      Depends on the data: a selected row carries -0.0 in an output column. *)
+Definition is_negzero (v : value) : bool := match v with VFloat b => b =? 2 ^ 63 | _ => false end.
+Definition known_class_case (ncols : nat) (q : query) (t : table) : Z :=
+  let k := known_class_q ncols q in
+  if negb (k =? 0) then k
+  else if q_distinct q &&
+          existsb (fun r => existsb is_negzero (proj (out_cols ncols (q_sel q)) r))
+                  (filter (passes_where (q_where q)) t)
+       then 7 else 0.
